@@ -187,8 +187,13 @@ class Result:
             json.dump(ev, f, indent=1, default=str)
         print("%s %s: %d obligations, %d discharged, %d known, %d violated, %d uninterpretable (%.2fs)" % (
             self.prop, self.tier, n, discharged, len(knownhits), len(viol), len(unint), time.time() - self.t0))
+        seen_known = set()
         for o, k in knownhits:
-            print("KNOWN-FINDING: property=%s %s [%s at %s]" % (self.prop, k.get("what", ""), o.rule, o.site))
+            if k.get("id") in seen_known:
+                continue
+            seen_known.add(k.get("id"))
+            sites = sorted({x.site for x, kk in knownhits if kk is k})
+            print("KNOWN-FINDING: property=%s %s [%s; %d construct(s): %s]" % (self.prop, k.get("what", ""), o.rule, len(sites), "; ".join(sites)[:300]))
         if viol:
             rdir = os.path.join(VERIF, "evidence", "replay")
             os.makedirs(rdir, exist_ok=True)
